@@ -14,15 +14,24 @@ package main
 
 import (
 	"bytes"
+	"context"
 	"encoding/hex"
+	"encoding/json"
+	"flag"
 	"fmt"
 	"hash/fnv"
 	"io"
 	"math"
+	"os"
+	"os/exec"
+	"path/filepath"
+	"runtime/debug"
 	"sort"
+	"strconv"
 	"strings"
 	"sync"
-	"sync/atomic"
+	"syscall"
+	"time"
 	"unicode/utf8"
 
 	"github.com/sheerbytes/sheerbytes/internal/transfer"
@@ -30,7 +39,10 @@ import (
 	"github.com/sheerbytes/sheerbytes/pkg/manifest"
 )
 
-func init() { register("c18", runC18) }
+func init() {
+	register("c18", runC18)
+	childCommands["c18shard"] = c18ShardMain
+}
 
 // ---------------------------------------------------------------- stream
 
@@ -781,21 +793,14 @@ func c18Boundaries(r *vk.Rng) []c18Rec {
 }
 
 // ---------------------------------------------------------------- the check
+//
+// A decoder that mis-reads a length field allocates up to 4 GiB per record and
+// can take the process down ("fatal error: out of memory"). All decoding
+// therefore happens in shard child processes (role "c18shard") that run their
+// share of the case list sequentially under an address-space limit and log
+// every case before it is executed; the parent attributes a crash to the
+// logged case, re-runs the shard without it and merges the shard reports.
 
-type c18Stats struct {
-	mu          sync.Mutex
-	perKind     map[string]*c18KindStat
-	boundaries  map[string]int
-	nameClasses map[string]int
-	readModes   map[string]int
-	rejected    map[string]int
-	utf8        map[string]int
-	seqLens     map[int]int
-	seqRecords  int
-	seqHeaders  int
-	seqOK       int
-	maxJSON     int
-}
 type c18KindStat struct {
 	Values     int `json:"values_round_tripped"`
 	Bytes      int `json:"encoded_bytes_total"`
@@ -803,13 +808,68 @@ type c18KindStat struct {
 	InSeq      int `json:"records_inside_sequences"`
 }
 
+type c18Stats struct {
+	PerKind     map[string]*c18KindStat `json:"per_kind"`
+	Boundaries  map[string]int          `json:"boundaries"`
+	NameClasses map[string]int          `json:"name_classes"`
+	ReadModes   map[string]int          `json:"read_modes"`
+	Rejected    map[string]int          `json:"rejected"`
+	UTF8        map[string]int          `json:"utf8"`
+	SeqLens     map[int]int             `json:"seq_lens"`
+	SeqRecords  int                     `json:"seq_records"`
+	SeqHeaders  int                     `json:"seq_headers"`
+	SeqOK       int                     `json:"seq_ok"`
+	MaxJSON     int                     `json:"max_json"`
+	Aborted     bool                    `json:"aborted"`
+	Probe       map[string]any          `json:"probe,omitempty"`
+}
+
+func newC18Stats() *c18Stats {
+	return &c18Stats{PerKind: map[string]*c18KindStat{}, Boundaries: map[string]int{}, NameClasses: map[string]int{}, ReadModes: map[string]int{},
+		Rejected: map[string]int{}, UTF8: map[string]int{}, SeqLens: map[int]int{}}
+}
+
 func (st *c18Stats) kind(k string) *c18KindStat {
-	ks := st.perKind[k]
+	ks := st.PerKind[k]
 	if ks == nil {
 		ks = &c18KindStat{}
-		st.perKind[k] = ks
+		st.PerKind[k] = ks
 	}
 	return ks
+}
+
+func addMap[K comparable](dst, src map[K]int) {
+	for k, v := range src {
+		dst[k] += v
+	}
+}
+
+func (st *c18Stats) merge(o *c18Stats) {
+	for k, v := range o.PerKind {
+		ks := st.kind(k)
+		ks.Values += v.Values
+		ks.Bytes += v.Bytes
+		ks.InSeq += v.InSeq
+		if v.MaxEncoded > ks.MaxEncoded {
+			ks.MaxEncoded = v.MaxEncoded
+		}
+	}
+	addMap(st.Boundaries, o.Boundaries)
+	addMap(st.NameClasses, o.NameClasses)
+	addMap(st.ReadModes, o.ReadModes)
+	addMap(st.Rejected, o.Rejected)
+	addMap(st.UTF8, o.UTF8)
+	addMap(st.SeqLens, o.SeqLens)
+	st.SeqRecords += o.SeqRecords
+	st.SeqHeaders += o.SeqHeaders
+	st.SeqOK += o.SeqOK
+	if o.MaxJSON > st.MaxJSON {
+		st.MaxJSON = o.MaxJSON
+	}
+	st.Aborted = st.Aborted || o.Aborted
+	if o.Probe != nil {
+		st.Probe = o.Probe
+	}
 }
 
 func c18Key64(kind string, b []byte) string {
@@ -820,24 +880,77 @@ func c18Key64(kind string, b []byte) string {
 	return fmt.Sprintf("%016x", h.Sum64())
 }
 
-func runC18(e *Env) {
-	R := e.R
-	R.Rule = "one case = one value of a record type (or the header) encoded by the repository's writer into an in-memory stream and decoded by " +
-		"readControlMessage/readControlHeader, or one sequence of 1-50 records; distinct by (record type, encoded bytes) resp. by the bytes of the whole sequence; " +
-		"a value counts only if the writer accepted it (writer rejections such as empty or over-long paths are counted separately, not evaluated)"
-	nValues := e.Pick(40000, 500000)
-	nSeq := e.Pick(2000, 20000)
-	base := e.Seed ^ vk.HashStr("c18"+e.Tier)
+const (
+	c18Shards       = 16
+	c18Batch        = 500
+	c18KnownKey     = "header:invalid-utf8-name"
+	c18AddrLimit    = 3 << 30 // address-space limit of a shard process
+	c18MaxCrashes   = 3       // crashes tolerated per shard before it is abandoned
+	c18ShardAbort   = 40      // unexpected violations after which a shard stops
+	c18ShardTimeout = 40 * time.Minute
+)
 
-	st := &c18Stats{perKind: map[string]*c18KindStat{}, boundaries: map[string]int{}, nameClasses: map[string]int{}, readModes: map[string]int{},
-		rejected: map[string]int{}, utf8: map[string]int{}, seqLens: map[int]int{}}
-	var sampled int64
-	var unknownViol int64 // violations outside the anticipated class; bounds work on a badly broken tree
-	abort := func() bool { return atomic.LoadInt64(&unknownViol) > 150 }
+func c18Sizes(tier string) (nValues, nSeq int) {
+	if tier == "thorough" {
+		return 500000, 20000
+	}
+	return 40000, 2000
+}
 
+// c18ShardMain is the child role: verifharness c18shard -tier T -seed N -shard i -out F -log F [-skip a,b]
+func c18ShardMain(args []string) int {
+	fs := flag.NewFlagSet("c18shard", flag.ExitOnError)
+	tier := fs.String("tier", "quick", "")
+	seed := fs.Uint64("seed", 1, "")
+	shard := fs.Int("shard", 0, "")
+	out := fs.String("out", "", "")
+	logp := fs.String("log", "", "")
+	skipS := fs.String("skip", "", "ordinals of cases not to execute (they crashed the process before)")
+	_ = fs.Parse(args)
+	skip := map[int]bool{}
+	for _, s := range strings.Split(*skipS, ",") {
+		if n, err := strconv.Atoi(s); err == nil {
+			skip[n] = true
+		}
+	}
+	lim := syscall.Rlimit{Cur: c18AddrLimit, Max: c18AddrLimit}
+	if err := syscall.Setrlimit(syscall.RLIMIT_AS, &lim); err != nil {
+		fmt.Fprintln(os.Stderr, "c18shard: cannot set RLIMIT_AS:", err)
+	}
+	debug.SetGCPercent(50)
+	lf, err := os.OpenFile(*logp, os.O_CREATE|os.O_WRONLY|os.O_TRUNC, 0644)
+	if err != nil {
+		fmt.Fprintln(os.Stderr, "c18shard:", err)
+		return 3
+	}
+	defer lf.Close()
+	R := vk.NewReport("c18", fmt.Sprintf("shard%d", *shard), *tier, *seed)
+	st := c18RunShard(R, *tier, *seed, *shard, lf, skip)
+	R.SetExtra("stats", st)
+	if err := R.Write(*out); err != nil {
+		fmt.Fprintln(os.Stderr, "c18shard:", err)
+		return 3
+	}
+	return 0
+}
+
+// c18RunShard evaluates, sequentially, every case whose index is congruent to shard.
+func c18RunShard(R *vk.Report, tier string, seed uint64, shard int, caseLog *os.File, skip map[int]bool) *c18Stats {
+	nValues, nSeq := c18Sizes(tier)
+	base := seed ^ vk.HashStr("c18"+tier)
+	st := newC18Stats()
+	unknownViol, sampled, ordinal := 0, 0, 0
+	abort := func() bool { return unknownViol > c18ShardAbort }
+
+	// begin logs the case and says whether it is to be executed.
+	begin := func(list string, index int, kind, class string) bool {
+		ordinal++
+		fmt.Fprintf(caseLog, "%d\t%s\t%d\t%s\t%s\n", ordinal, list, index, kind, class)
+		return !skip[ordinal]
+	}
 	violate := func(key, what string, rec c18Rec, extra map[string]any) {
-		if key != "header:invalid-utf8-name" {
-			atomic.AddInt64(&unknownViol, 1)
+		if key != c18KnownKey {
+			unknownViol++
 		}
 		cs := c18Describe(rec)
 		for k, v := range extra {
@@ -846,20 +959,21 @@ func runC18(e *Env) {
 		R.Violate(key, what, cs, nil)
 	}
 
-	// checkValue round-trips one value; returns the encoded length (or -1 when the writer refused).
-	checkValue := func(rec c18Rec, dribble *vk.Rng, origin map[string]any) int {
+	checkValue := func(rec c18Rec, dribble *vk.Rng, list string, index int) {
+		origin := map[string]any{"list": list, "index": index, "shard": shard}
+		if !begin(list, index, rec.Kind, rec.Class) {
+			return
+		}
 		R.Eval()
 		s := &c18Stream{}
 		if err := c18Encode(s, rec); err != nil {
-			st.mu.Lock()
 			lbl := rec.Kind + ":" + rec.Class
 			if len(s.buf) > 0 {
 				lbl += " (bytes already written)"
 			}
-			st.rejected[lbl]++
-			st.mu.Unlock()
+			st.Rejected[lbl]++
 			R.Count("writer_rejected")
-			return -1
+			return
 		}
 		encLen := len(s.buf)
 		s.dribble = dribble
@@ -882,9 +996,7 @@ func runC18(e *Env) {
 		case !c18Equal(rec.V, got):
 			ok = false
 			if m, isM := rec.V.(manifest.Manifest); isM && manifestInvalidNames(m) && c18Equal(manifestCoerced(m), got) {
-				st.mu.Lock()
-				st.utf8["headers_with_invalid_utf8_names_changed_by_round_trip"]++
-				st.mu.Unlock()
+				st.UTF8["headers_with_invalid_utf8_names_changed_by_round_trip"]++
 				gm := got.(manifest.Manifest)
 				ex := map[string]any{"origin": origin, "encoded_len": encLen, "decoded_root": c18ShortBytes([]byte(gm.Root))}
 				for i := range m.Items {
@@ -895,8 +1007,8 @@ func runC18(e *Env) {
 						break
 					}
 				}
-				violate("header:invalid-utf8-name", "manifest header: a root / rel_path that is not valid UTF-8 is decoded as a different name "+
-					"(json.Marshal replaces every offending byte by U+FFFD); all other fields equal", rec, ex)
+				violate(c18KnownKey, "manifest header: a root / rel_path that is not valid UTF-8 is decoded as a different name "+
+					"(json.Marshal replaces every offending byte by U+FFFD); all other fields equal, framing intact", rec, ex)
 			} else {
 				violate(key, fmt.Sprintf("decode(encode(x)) != x for %s", rec.Kind), rec,
 					map[string]any{"origin": origin, "encoded_len": encLen, "decoded": c18Describe(c18Rec{Kind: rec.Kind, Class: "decoded", V: got}), "bytes_left": left, "read_mode": mode})
@@ -908,7 +1020,6 @@ func runC18(e *Env) {
 				map[string]any{"origin": origin, "encoded_len": encLen, "bytes_left": left, "read_mode": mode})
 		}
 		R.Distinct(c18Key64(rec.Kind, s.buf))
-		st.mu.Lock()
 		ks := st.kind(rec.Kind)
 		if ok {
 			ks.Values++
@@ -917,62 +1028,61 @@ func runC18(e *Env) {
 		if encLen > ks.MaxEncoded {
 			ks.MaxEncoded = encLen
 		}
-		st.readModes[mode]++
+		st.ReadModes[mode]++
 		if rec.Kind == kHeader || rec.Kind == kFileBegin {
 			if i := strings.LastIndex(rec.Class, "/"); i >= 0 {
-				st.nameClasses[rec.Kind+"/"+rec.Class[i+1:]]++
+				st.NameClasses[rec.Kind+"/"+rec.Class[i+1:]]++
 			}
 		}
 		if m, isM := rec.V.(manifest.Manifest); isM {
-			if encLen-8 > st.maxJSON {
-				st.maxJSON = encLen - 8
+			if encLen-8 > st.MaxJSON {
+				st.MaxJSON = encLen - 8
 			}
 			if manifestInvalidNames(m) {
-				st.utf8["headers_with_invalid_utf8_names"]++
+				st.UTF8["headers_with_invalid_utf8_names"]++
 			}
 		}
 		if !strings.HasPrefix(rec.Class, "rand") && ok {
-			st.boundaries[rec.Kind+":"+rec.Class]++
+			st.Boundaries[rec.Kind+":"+rec.Class]++
 		}
-		st.mu.Unlock()
-		if ok && atomic.AddInt64(&sampled, 1) <= 8 {
+		if ok && sampled < 2 {
+			sampled++
 			R.Sample(map[string]any{"value": c18Describe(rec), "encoded_len": encLen, "read_mode": mode, "result": "equal, reader at EOF"})
 		}
-		return encLen
 	}
 
 	// ---- 1. field boundaries (both read modes) ----
 	bnd := c18Boundaries(vk.NewRng(base ^ 0xb0))
-	planned := map[string]bool{}
-	for _, b := range bnd {
-		planned[b.Kind+":"+b.Class] = true
-	}
-	vk.ParallelDo(len(bnd), 16, func(i int) {
-		if abort() {
-			return
+	for i := range bnd {
+		if i%c18Shards != shard || abort() {
+			continue
 		}
-		checkValue(bnd[i], nil, map[string]any{"list": "boundaries", "index": i})
-		checkValue(bnd[i], vk.NewRng(base^uint64(i)^0xd1), map[string]any{"list": "boundaries", "index": i})
-	})
+		checkValue(bnd[i], nil, "boundaries", i)
+		checkValue(bnd[i], vk.NewRng(base^uint64(i)^0xd1), "boundaries", i)
+	}
 
 	// ---- 2. writer-side limits (not part of the verdict): what the writer refuses ----
-	for i, rec := range []c18Rec{
-		{kFileBegin, "path=empty", transfer.FileBegin{RelPath: ""}},
-		{kFileBegin, "path=1025", transfer.FileBegin{RelPath: strings.Repeat("a", 1025)}},
-		{kFileBegin, "path=dotdot-segment", transfer.FileBegin{RelPath: "a/../b"}},
-		{kFileBegin, "path=absolute", transfer.FileBegin{RelPath: "/abs"}},
-	} {
-		checkValue(rec, nil, map[string]any{"list": "writer-limits", "index": i})
+	if shard == 0 {
+		for i, rec := range []c18Rec{
+			{kFileBegin, "path=empty", transfer.FileBegin{RelPath: ""}},
+			{kFileBegin, "path=1025", transfer.FileBegin{RelPath: strings.Repeat("a", 1025)}},
+			{kFileBegin, "path=dotdot-segment", transfer.FileBegin{RelPath: "a/../b"}},
+			{kFileBegin, "path=absolute", transfer.FileBegin{RelPath: "/abs"}},
+		} {
+			checkValue(rec, nil, "writer-limits", i)
+		}
 	}
 
 	// ---- 3. seeded random values ----
-	const batch = 500
-	nb := (nValues + batch - 1) / batch
-	vk.ParallelDo(nb, 16, func(b int) {
+	nb := (nValues + c18Batch - 1) / c18Batch
+	for b := 0; b < nb; b++ {
+		if b%c18Shards != shard {
+			continue
+		}
 		r := vk.NewRng(base ^ vk.Mix(uint64(b)+0x1000))
-		for j := 0; j < batch && b*batch+j < nValues; j++ {
+		for j := 0; j < c18Batch && b*c18Batch+j < nValues; j++ {
 			if abort() {
-				return
+				break
 			}
 			kind := c18Kinds[r.Intn(len(c18Kinds))]
 			rec := c18Random(r, kind, false)
@@ -980,28 +1090,33 @@ func runC18(e *Env) {
 			if r.Bool() {
 				dr = r.Fork()
 			}
-			checkValue(rec, dr, map[string]any{"list": "random", "batch": b, "index": j})
+			checkValue(rec, dr, "random", b*c18Batch+j)
 		}
-	})
+	}
 
 	// ---- 4. random sequences ----
-	vk.ParallelDo(nSeq, 16, func(i int) {
-		if abort() {
-			return
+	for i := 0; i < nSeq; i++ {
+		if i%c18Shards != shard || abort() {
+			continue
 		}
 		r := vk.NewRng(base ^ vk.Mix(uint64(i)+0x5e0000))
-		R.Eval()
 		n := 1 + r.Intn(50)
 		var recs []c18Rec
 		withHeader := r.Bool()
 		if withHeader {
 			recs = append(recs, c18Random(r, kHeader, true))
+			n++
 		}
-		for len(recs) < n+map[bool]int{true: 1, false: 0}[withHeader] {
+		for len(recs) < n {
 			kind := c18Kinds[r.Intn(len(c18Kinds)-1)] // everything but the header
-			small := r.Intn(12) != 0
-			recs = append(recs, c18Random(r, kind, small))
+			recs = append(recs, c18Random(r, kind, r.Intn(12) != 0))
 		}
+		dribble := r.Bool()
+		dr := r.Fork()
+		if !begin("sequences", i, "seq", fmt.Sprintf("records=%d", len(recs))) {
+			continue
+		}
+		R.Eval()
 		s := &c18Stream{}
 		var ends []int
 		kept := recs[:0]
@@ -1017,12 +1132,12 @@ func runC18(e *Env) {
 		}
 		recs = kept
 		if len(recs) == 0 {
-			return
+			continue
 		}
-		if r.Bool() {
-			s.dribble = r.Fork()
+		if dribble {
+			s.dribble = dr
 		}
-		origin := map[string]any{"list": "sequences", "index": i, "records": len(recs), "total_bytes": len(s.buf)}
+		origin := map[string]any{"list": "sequences", "index": i, "shard": shard, "records": len(recs), "total_bytes": len(s.buf)}
 		bad := false
 		for j, rec := range recs {
 			typ, got, err := c18Decode(s, rec.Kind)
@@ -1037,10 +1152,8 @@ func runC18(e *Env) {
 				violate(key, fmt.Sprintf("record %d (%s) of a sequence decoded as type 0x%02x", j, rec.Kind, typ), rec, ex)
 			case !c18Equal(rec.V, got):
 				if m, isM := rec.V.(manifest.Manifest); isM && manifestInvalidNames(m) && c18Equal(manifestCoerced(m), got) {
-					st.mu.Lock()
-					st.utf8["headers_with_invalid_utf8_names_changed_by_round_trip"]++
-					st.mu.Unlock()
-					violate("header:invalid-utf8-name", "manifest header at the start of a record sequence: names that are not valid UTF-8 are decoded as different names", rec, ex)
+					st.UTF8["headers_in_sequences_changed_by_round_trip"]++
+					violate(c18KnownKey, "manifest header at the start of a record sequence: names that are not valid UTF-8 are decoded as different names", rec, ex)
 					// framing is intact; keep decoding the rest of the sequence
 				} else {
 					bad = true
@@ -1065,49 +1178,157 @@ func runC18(e *Env) {
 			}
 		}
 		R.Distinct(c18Key64("seq", s.buf))
-		st.mu.Lock()
-		st.seqLens[len(recs)]++
-		st.seqRecords += len(recs)
+		st.SeqLens[len(recs)]++
+		st.SeqRecords += len(recs)
 		if withHeader {
-			st.seqHeaders++
+			st.SeqHeaders++
 		}
 		if !bad {
-			st.seqOK++
+			st.SeqOK++
 		}
 		for _, rec := range recs {
 			st.kind(rec.Kind).InSeq++
 		}
-		st.mu.Unlock()
-	})
+	}
 
 	// ---- 5. beyond the 16-bit limits (outside the property's quantifier; diagnostic only) ----
-	probe := map[string]any{}
-	for _, p := range []c18Rec{
-		{kFileDone, "err=65536", transfer.FileDone{StreamID: 1, ErrMsg: strings.Repeat("\x00", 65536)}},
-		{kFileDone, "err=65537", transfer.FileDone{StreamID: 1, ErrMsg: strings.Repeat("\x00", 65537)}},
-		{kResumeReq, "id=65536", transfer.ResumeRequest{StreamID: 1, FileID: strings.Repeat("\x00", 65536)}},
-		{kResume, "id=65536", transfer.FileResumeInfo{StreamID: 1, FileID: strings.Repeat("\x00", 65536)}},
-	} {
-		s := &c18Stream{}
-		err := c18Encode(s, p)
-		res := map[string]any{"writer_error": fmt.Sprint(err), "bytes_written": len(s.buf)}
-		if err == nil {
-			_, got, derr := c18Decode(s, p.Kind)
-			res["decoder_error"] = fmt.Sprint(derr)
-			res["decoded_equal"] = derr == nil && c18Equal(p.V, got)
-			res["bytes_left_unread"] = s.left()
+	if shard == 0 {
+		st.Probe = map[string]any{}
+		for i, p := range []c18Rec{
+			{kFileDone, "err=65536", transfer.FileDone{StreamID: 1, ErrMsg: strings.Repeat("\x00", 65536)}},
+			{kFileDone, "err=65537", transfer.FileDone{StreamID: 1, ErrMsg: strings.Repeat("\x00", 65537)}},
+			{kResumeReq, "id=65536", transfer.ResumeRequest{StreamID: 1, FileID: strings.Repeat("\x00", 65536)}},
+			{kResume, "id=65536", transfer.FileResumeInfo{StreamID: 1, FileID: strings.Repeat("\x00", 65536)}},
+		} {
+			if !begin("beyond-limit-probe", i, p.Kind, p.Class) {
+				continue
+			}
+			s := &c18Stream{}
+			err := c18Encode(s, p)
+			res := map[string]any{"writer_error": fmt.Sprint(err), "bytes_written": len(s.buf)}
+			if err == nil {
+				_, got, derr := c18Decode(s, p.Kind)
+				res["decoder_error"] = fmt.Sprint(derr)
+				res["decoded_equal"] = derr == nil && c18Equal(p.V, got)
+				res["bytes_left_unread"] = s.left()
+			}
+			st.Probe[p.Kind+":"+p.Class] = res
 		}
-		probe[p.Kind+":"+p.Class] = res
 	}
-	R.SetExtra("beyond_16bit_limit_probe_not_part_of_verdict", probe)
+	st.Aborted = abort()
+	return st
+}
+
+type c18ShardReport struct {
+	Evaluations  int            `json:"evaluations"`
+	DistinctKeys []string       `json:"distinct_keys"`
+	Samples      []any          `json:"samples"`
+	Violations   []vk.Violation `json:"violations"`
+	Extra        struct {
+		Counters map[string]int `json:"counters"`
+		Stats    *c18Stats      `json:"stats"`
+	} `json:"extra"`
+}
+
+func c18LastLine(path string) string {
+	b, _ := os.ReadFile(path)
+	lines := strings.Split(strings.TrimRight(string(b), "\n"), "\n")
+	return lines[len(lines)-1]
+}
+
+func runC18(e *Env) {
+	R := e.R
+	R.Rule = "one case = one value of a record type (or the header) encoded by the repository's writer into an in-memory stream and decoded by " +
+		"readControlMessage/readControlHeader, or one sequence of 1-50 records; distinct by (record type, encoded bytes) resp. by the bytes of the whole sequence; " +
+		"a value counts only if the writer accepted it (writer rejections such as empty or over-long paths are counted separately, not evaluated)"
+	nValues, nSeq := c18Sizes(e.Tier)
+	base := e.Seed ^ vk.HashStr("c18"+e.Tier)
+	st := newC18Stats()
+	var mu sync.Mutex
+	crashes := map[string]int{}
+	abandoned := 0
+
+	vk.ParallelDo(c18Shards, c18Shards, func(shard int) {
+		var skip []string
+		for attempt := 0; ; attempt++ {
+			out := filepath.Join(e.Work, fmt.Sprintf("shard%d-%d.json", shard, attempt))
+			logp := filepath.Join(e.Work, fmt.Sprintf("shard%d-%d.cases", shard, attempt))
+			errp := filepath.Join(e.Work, fmt.Sprintf("shard%d-%d.stderr", shard, attempt))
+			ef, _ := os.Create(errp)
+			ctx, cancel := context.WithTimeout(context.Background(), c18ShardTimeout)
+			cmd := exec.CommandContext(ctx, os.Args[0], "c18shard", "-tier", e.Tier, "-seed", fmt.Sprint(e.Seed), "-shard", fmt.Sprint(shard),
+				"-out", out, "-log", logp, "-skip", strings.Join(skip, ","))
+			cmd.Stdout, cmd.Stderr = ef, ef
+			err := cmd.Run()
+			timedOut := ctx.Err() != nil
+			cancel()
+			ef.Close()
+			var rep c18ShardReport
+			if data, rerr := os.ReadFile(out); err == nil && rerr == nil && json.Unmarshal(data, &rep) == nil && rep.Extra.Stats != nil {
+				mu.Lock()
+				R.EvalN(rep.Evaluations)
+				for _, k := range rep.DistinctKeys {
+					R.Distinct(k)
+				}
+				for _, s := range rep.Samples {
+					R.Sample(s)
+				}
+				for _, v := range rep.Violations {
+					R.Violate(v.Key, v.What, v.Case, v.Detail)
+				}
+				for k, n := range rep.Extra.Counters {
+					if strings.HasPrefix(k, "violation:") {
+						R.CountN("all_"+k, n)
+					} else {
+						R.CountN(k, n)
+					}
+				}
+				st.merge(rep.Extra.Stats)
+				mu.Unlock()
+				return
+			}
+			// the shard died: attribute it to the case it had logged last
+			errTail, _ := os.ReadFile(errp)
+			first := strings.SplitN(strings.TrimSpace(string(errTail)), "\n", 2)[0]
+			last := c18LastLine(logp)
+			f := strings.Split(last, "\t")
+			goCrash := strings.Contains(string(errTail), "fatal error:") || strings.Contains(string(errTail), "panic:")
+			mu.Lock()
+			switch {
+			case timedOut:
+				R.Inconcl(fmt.Sprintf("shard %d exceeded %s", shard, c18ShardTimeout))
+			case !goCrash || len(f) < 5:
+				R.Inconcl(fmt.Sprintf("shard %d ended abnormally (%v) without a Go crash report; last case %q; stderr %q", shard, err, last, first))
+			default:
+				crashes[f[3]+":"+f[4]]++
+				key := f[3] + ":" + f[4]
+				if f[3] == "seq" {
+					key = "seq:crash"
+				}
+				R.Violate(key, fmt.Sprintf("the process died while decoding bytes the repository's encoder had written for this case (address space limited to %d MiB): %s", c18AddrLimit>>20, first),
+					map[string]any{"list": f[1], "index": f[2], "kind": f[3], "class": f[4], "shard": shard, "ordinal_in_shard": f[0]},
+					map[string]any{"stderr_head": string(errTail[:minInt(len(errTail), 1500)])})
+			}
+			mu.Unlock()
+			if timedOut || !goCrash || len(f) < 5 || attempt+1 > c18MaxCrashes {
+				mu.Lock()
+				abandoned++
+				mu.Unlock()
+				return
+			}
+			skip = append(skip, f[0])
+		}
+	})
 
 	// ---- evidence ----
-	st.mu.Lock()
-	defer st.mu.Unlock()
-	R.SetExtra("per_record_type", st.perKind)
+	planned := map[string]bool{}
+	for _, b := range c18Boundaries(vk.NewRng(base ^ 0xb0)) {
+		planned[b.Kind+":"+b.Class] = true
+	}
+	R.SetExtra("per_record_type", st.PerKind)
 	var hit, missed []string
 	for k := range planned {
-		if st.boundaries[k] >= 2 {
+		if st.Boundaries[k] >= 2 {
 			hit = append(hit, k)
 		} else {
 			missed = append(missed, k)
@@ -1117,13 +1338,14 @@ func runC18(e *Env) {
 	sort.Strings(missed)
 	R.SetExtra("boundaries_round_tripped_in_both_read_modes", hit)
 	R.SetExtra("boundaries_not_round_tripped", missed)
-	R.SetExtra("name_classes_values", st.nameClasses)
-	R.SetExtra("read_modes", st.readModes)
-	R.SetExtra("writer_rejected", st.rejected)
-	R.SetExtra("invalid_utf8", st.utf8)
-	R.SetExtra("largest_manifest_json_bytes", st.maxJSON)
+	R.SetExtra("name_classes_values", st.NameClasses)
+	R.SetExtra("read_modes", st.ReadModes)
+	R.SetExtra("writer_rejected", st.Rejected)
+	R.SetExtra("invalid_utf8", st.UTF8)
+	R.SetExtra("largest_manifest_json_bytes", st.MaxJSON)
+	R.SetExtra("beyond_16bit_limit_probe_not_part_of_verdict", st.Probe)
 	minL, maxL := 0, 0
-	for l := range st.seqLens {
+	for l := range st.SeqLens {
 		if minL == 0 || l < minL {
 			minL = l
 		}
@@ -1131,32 +1353,32 @@ func runC18(e *Env) {
 			maxL = l
 		}
 	}
-	R.SetExtra("sequences", map[string]any{"checked": len2(st.seqLens), "decoded_to_same_sequence": st.seqOK, "records_total": st.seqRecords,
-		"with_header_first": st.seqHeaders, "min_records": minL, "max_records": maxL, "distinct_lengths": len(st.seqLens)})
-	R.SetExtra("aborted_early_after_many_violations", abort())
+	R.SetExtra("sequences", map[string]any{"checked": len2(st.SeqLens), "decoded_to_same_sequence": st.SeqOK, "records_total": st.SeqRecords,
+		"with_header_first": st.SeqHeaders, "min_records": minL, "max_records": maxL, "distinct_lengths": len(st.SeqLens)})
+	R.SetExtra("execution", map[string]any{"shard_processes": c18Shards, "address_space_limit_mib": c18AddrLimit >> 20, "decoder_crashes_by_case_class": crashes,
+		"shards_abandoned": abandoned, "a_shard_stopped_early_after_many_violations": st.Aborted})
 	R.SetExtra("not_covered", "JSON headers near the 32-bit length limit (largest header see largest_manifest_json_bytes); bitmaps above 1 MiB + 1; pkg/protocol.Envelope (signaling JSON, not one of the records the property quantifies over)")
 
-	okKinds := 0
+	okKinds, total := 0, 0
 	for _, k := range c18Kinds {
-		if ks := st.perKind[k]; ks != nil && ks.Values > 0 {
+		if ks := st.PerKind[k]; ks != nil && ks.Values > 0 {
 			okKinds++
 		}
 	}
-	total := 0
-	for _, ks := range st.perKind {
+	for _, ks := range st.PerKind {
 		total += ks.Values
 	}
+	broken := st.Aborted || abandoned > 0 || len(crashes) > 0 // then violations explain the shortfall
 	R.Require(okKinds == len(c18Kinds), fmt.Sprintf("only %d of %d record types had a value that round-tripped", okKinds, len(c18Kinds)))
-	R.Require(abort() || total >= nValues*9/10, fmt.Sprintf("only %d values round-tripped (planned %d random + boundaries)", total, nValues))
-	R.Require(abort() || len2(st.seqLens) >= nSeq*9/10, fmt.Sprintf("only %d sequences checked (planned %d)", len2(st.seqLens), nSeq))
-	// the invalid-UTF-8 header boundaries are expected to be missed while the known finding exists
+	R.Require(broken || total >= nValues*9/10, fmt.Sprintf("only %d values round-tripped (planned %d random + boundaries)", total, nValues))
+	R.Require(broken || len2(st.SeqLens) >= nSeq*9/10, fmt.Sprintf("only %d sequences checked (planned %d)", len2(st.SeqLens), nSeq))
 	unexpectedMiss := 0
 	for _, k := range missed {
-		if !strings.HasSuffix(k, "/invalid-utf8") {
+		if !strings.HasSuffix(k, "/invalid-utf8") { // expected while the known finding exists
 			unexpectedMiss++
 		}
 	}
-	R.Require(abort() || unexpectedMiss == 0 || len(R.Violations) > 0, fmt.Sprintf("%d planned boundary values were not round-tripped and no violation explains it", unexpectedMiss))
+	R.Require(broken || unexpectedMiss == 0 || len(R.Violations) > 0, fmt.Sprintf("%d planned boundary values were not round-tripped and no violation explains it", unexpectedMiss))
 }
 
 func len2(m map[int]int) int {
